@@ -380,13 +380,16 @@ def _source_size(ctx, repo) -> None:
     default_boundary = _fold(d)
     # mapping boundary -> mode
     mode_for_default = None
+    # the local handed on as `mode=` to the filter calls (whatever it is called)
+    mode_vars = {dotted(k.value) for c in walk_no_nested(g.node) if isinstance(c, ast.Call)
+                 for k in c.keywords if k.arg == "mode" and isinstance(k.value, ast.Name)}
     for st in walk_no_nested(g.node):
         if isinstance(st, ast.If):
             t = st.test
             if isinstance(t, ast.Compare) and len(t.ops) == 1 and isinstance(t.ops[0], ast.Eq) and \
                     dotted(t.left) == "boundary" and _fold(t.comparators[0]) == default_boundary:
                 for s2 in st.body:
-                    if isinstance(s2, ast.Assign) and dotted(s2.targets[0]) == "mode":
+                    if isinstance(s2, ast.Assign) and dotted(s2.targets[0]) in (mode_vars or {"mode"}):
                         mode_for_default = _fold(s2.value)
     ctx.check(mode_for_default == eg["mode"], "R-SRCTWIN", f"{g.qualname}:default-boundary", g.where,
               f"default boundary {default_boundary!r} -> mode {mode_for_default!r} = source-size mode",
